@@ -198,6 +198,15 @@ def _set(m, o, e):
         m.errors.append("write to non-location %r" % (o,))
 
 
+def _clobber_below_sp(m, spname):
+    spv = m.r(spname)
+    if spv[0] != "addr":
+        return
+    for a in list(m.mem):
+        if a[0] == spv[1] and isinstance(a[1], int) and a[1] < spv[2]:
+            m.mem[a] = ("garbage", "below sp at call")
+
+
 X86_CC = {"je": "Equal", "jne": "NotEqual", "jl": "Less", "jle": "LessOrEqual", "jg": "Greater", "jge": "GreaterOrEqual"}
 A64_CC = {"BEQ": "Equal", "BNE": "NotEqual", "BLT": "Less", "BLE": "LessOrEqual", "BGT": "Greater", "BGE": "GreaterOrEqual"}
 
@@ -282,6 +291,7 @@ def step_x86(m, variant, mn, ops):
         for r in CALLER_SAVED["x86_64"]:
             m.regs[r] = ("garbage", "call")
         m.flags = ("garbage", "call")
+        _clobber_below_sp(m, "rsp")
     elif mn in X86_CC:
         m.events.append(("jcc", X86_CC[mn], m.flags, ops[0][1]))
     elif mn in ("jmp", "jmp near"):
@@ -358,6 +368,7 @@ def step_a64(m, variant, mn, ops):
         for r in CALLER_SAVED["aarch64"]:
             m.regs[r] = ("garbage", "call")
         m.flags = ("garbage", "call")
+        _clobber_below_sp(m, "SP")
     elif mn == "ADR":
         _set(m, ops[0], var("label:%r" % (ops[1],)))
     elif mn == "RET":
